@@ -260,7 +260,8 @@ Definition raw_dict (text : string) : list (string * string) :=
             (split_on nl (univ_nl text)) [].
 Definition normalise (raw : list (string * string)) : list (string * string) :=
   fold_left (fun d kv => dict_set (lower_l1 (strip (fst kv))) (strip (snd kv)) d) raw [].
-Definition status_parse (text : string) : option (list (string * string)) :=
+(* before the F14c repair: Status.__init__ strip()ped the un-escaped error description like any other value *)
+Definition status_parse_pinned (text : string) : option (list (string * string)) :=
   let raw := raw_dict text in
   let raw' := match lookup ED raw with
               | Some e => option_map (fun e' => dict_set ED e' raw) (unescape e)
@@ -272,6 +273,27 @@ Definition status_parse (text : string) : option (list (string * string)) :=
       match lookup "stages" r with
       | None => None
       | Some st => Some (dict_set "stages" (strip st) (normalise r))
+      end
+  end.
+(* after the F14c repair: statusFromFile stores the un-escaped error description into the object after
+   Status.__init__ has normalised the other values *)
+Definition status_parse (text : string) : option (list (string * string)) :=
+  let raw := raw_dict text in
+  match lookup ED raw with
+  | Some e =>
+      match unescape e with
+      | None => None
+      | Some e' =>
+          let r := dict_set ED e' raw in
+          match lookup "stages" r with
+          | None => None
+          | Some st => Some (dict_set ED e' (dict_set "stages" (strip st) (normalise r)))
+          end
+      end
+  | None =>
+      match lookup "stages" raw with
+      | None => None
+      | Some st => Some (dict_set "stages" (strip st) (normalise raw))
       end
   end.
 
@@ -322,6 +344,14 @@ Definition instance_update (ci cm : list string) : list txn :=
    good_txn "T2" "manifest.yaml" (fun _ => cm) true true].
 Definition store_update_pinned (cs : list string) : list txn :=
   [mkTxn "T1" "flowir_instance.yaml" (fun _ => cs) true false false false].
+
+(* Experiment._store_extracted_input_ids / _store_additional_input_data / _store_extracted_measured_properties
+   (output/input-ids.json, additional_input_data.json, properties.csv) after the F14g repair: the same helper
+   as conf.py (json.dump / DataFrame.to_csv chunks are an oracle input); before it: written in place *)
+Definition file_update (f : path) (cs : list string) : list txn :=
+  [good_txn "T1" f (fun _ => cs) true true].
+Definition file_update_pinned (f : path) (cs : list string) : list txn :=
+  [mkTxn "T1" f (fun _ => cs) true false false false].
 
 (* ================================================================ checkers used by the harness *)
 Definition fsop_eqb (a b : fsop) : bool :=
